@@ -26,7 +26,7 @@ RULE = ('(1) for each program of a catalogue (state behaviours: retry, retry-n-t
 ASSUMPTIONS = ['reference model written from the documentation in frappy/lib/statemachine.py (Mechanism/Restart/Stop/Cleaning Up)',
                'injection is at source line granularity, skipped while the lock of the machine is held']
 
-DEPTH = {'quick': 6, 'thorough': 8}
+DEPTH = {'quick': 7, 'thorough': 9}
 N_EXAMPLES = {'quick': 300, 'thorough': 6000}
 MAXLOOPS = 4
 RETRY, FINISH = 'Retry', 'Finish'
